@@ -519,6 +519,7 @@ type Contract struct {
 	Entry    bool
 	NoFrame  bool
 	LoopInvs []*Clause // invariants of every loop of the function
+	NoReads  map[string][]string // struct type name -> fields the function must never read
 	PreOrder []int     // source order of requires (>=0: index into Requires) and lets (<0: -(index+1) into Lets)
 	Opaque    bool // havoc everything reachable (external default)
 }
@@ -782,6 +783,21 @@ func parseSpecFile(src, prefix, file string, assumed bool) (*SpecFile, error) {
 			cur.Opaque = true
 		case "fresh":
 			cur.Fresh = append(cur.Fresh, strings.Fields(rest)...)
+		case "noreads":
+			// noreads Schema: Title, Description, ...
+			i := strings.Index(rest, ":")
+			if cur == nil || i < 0 {
+				return nil, fail(fmt.Errorf("noreads <Type>: f1, f2 inside a contract"))
+			}
+			if cur.NoReads == nil {
+				cur.NoReads = map[string][]string{}
+			}
+			tn := strings.TrimSpace(rest[:i])
+			for _, f := range strings.Split(rest[i+1:], ",") {
+				if f = strings.TrimSpace(f); f != "" {
+					cur.NoReads[tn] = append(cur.NoReads[tn], f)
+				}
+			}
 		case "noinline":
 			cur.NoInline = true
 		case "entry":
